@@ -174,6 +174,8 @@ def safe_callable_names(root: ast.Module) -> Collection[str]:
         for node in function_defs:
             if node.name in defined_names:
                 continue
+            if node.decorator_list:
+                continue  # What is called is whatever the decorator returns
             nonreturn_children = []
             for child in node.body:
                 if core.is_blocking(child):
@@ -205,6 +207,8 @@ def safe_callable_names(root: ast.Module) -> Collection[str]:
             if core.match_template(
                 child, ast.FunctionDef(name=("__init__", "__post_init__", "__new__"))
         )}
+        if node.bases or node.keywords or node.decorator_list:
+            continue  # Constructors may be inherited, or come from a metaclass or a decorator
         if not constructors - safe_callable_nodes:
             safe_callables.add(node.name)
 
